@@ -488,11 +488,39 @@ def c15_unit_checks(st, cls, units, label):
             st.notes.append(f"{tgt}: {e}")
 
 
+def warmup(history):
+    """repeat the generator calls of earlier jobs of a worker (no solver): what they leave behind in the library is part of
+    the situation a later counterexample was found in"""
+    for pid, label, ast in history:
+        try:
+            primed = label.endswith(" [after _gen_c_decl({}) / _gen_kernels({})]")
+            cls = tg.build(ast)
+            if primed:
+                for c in sort_classes([cls]):
+                    if hasattr(c, "_gen_c_decl"):
+                        c._gen_c_decl({})
+                    if hasattr(c, "_gen_kernels"):
+                        c._gen_kernels({})
+            for tgt in ("cpu_serial",) + (("cpu_openmp", "opencl", "cuda") if pid == "C15" else ()):
+                cgen.Unit([cls], tgt)
+            for path in cls._gen_data_paths():
+                capi.methods_from_path(cls, path, default_conf)
+        except Exception:  # noqa
+            pass
+
+
 REPLAY = '''#!/usr/bin/env python
 """replay: compile the real generated accessor with cffi and compare with the Python accessors (exit 1 = disagree)"""
 import sys
 sys.path.insert(0, "/verif")
+import os
+if not sys.executable.startswith("/verif/.venv"):
+    os.execv("/verif/.venv/bin/python", ["/verif/.venv/bin/python"] + sys.argv)
 from vx.replay_capi import run
+HISTORY = {history}
+if HISTORY:
+    from checks import capi_tv
+    capi_tv.warmup(HISTORY)
 AST = {ast}
 sys.exit(run(AST, {c_name!r}, {pdesc!r}, {kind!r}, dim={dim}))
 '''
@@ -505,6 +533,10 @@ if not sys.executable.startswith("/verif/.venv"):
 sys.path.insert(0, "/verif")
 from vx import typegen as tg, cgen
 from xobjects.context import sort_classes
+HISTORY = {history}
+if HISTORY:
+    from checks import capi_tv
+    capi_tv.warmup(HISTORY)
 AST = {ast}
 cls = tg.build(AST)
 if {prime}:
@@ -562,10 +594,11 @@ def main(pid):
     if pid == "C15":
         # every type a second time, as fresh classes, with the generator's other entry points called first
         jobs += [(pid, label + " [after _gen_c_decl({}) / _gen_kernels({})]", tg.renamed(ast, "p"), tr, False) for label, ast in (cat if tr == "quick" else cat[:120])]
-    results = run_parallel(analyse, jobs)
+    hist = []
+    results = run_parallel(analyse, jobs, histories=hist)
     programs = 0
     agg = {}
-    for (job, res) in zip(jobs, results):
+    for (job, res, prior) in zip(jobs, results, hist):
         rep.add_engine_result(res)
         ex = res["extra"]
         programs += ex["programs"]
@@ -588,11 +621,14 @@ def main(pid):
             mv = [v for v in (cex.get("model") or {}).values() if isinstance(v, int)]
             if mv:
                 dim = max(2, min(max(mv) + 1, 6))
+            hrepr = repr([(jobs[i][0], jobs[i][1], jobs[i][2]) for i in prior])
             if pid == "C15":
-                text = REPLAY_C15.format(ast=repr(job[2]), c_name=info.get("c_name", cex["function"]), prime=job[1].endswith("_gen_kernels({})]"))
+                fmt = dict(ast=repr(job[2]), c_name=info.get("c_name", cex["function"]), prime=job[1].endswith("_gen_kernels({})]"))
+                text, htext = REPLAY_C15.format(history="[]", **fmt), REPLAY_C15.format(history=hrepr, **fmt)
             else:
-                text = REPLAY.format(ast=repr(info["ast"]), c_name=info["c_name"], pdesc=info["pdesc"], kind=info["kind"], dim=dim)
-            rep.candidate(sig, desc, text)
+                fmt = dict(ast=repr(info["ast"]), c_name=info["c_name"], pdesc=info["pdesc"], kind=info["kind"], dim=dim)
+                text, htext = REPLAY.format(history="[]", **fmt), REPLAY.format(history=hrepr, **fmt)
+            rep.candidate(sig, desc, text, history_text=htext if prior else None)
     rep.programs = programs
     rep.extra.update(agg)
     rep.extra["types_in_catalogue"] = len(cat)
